@@ -233,6 +233,8 @@ func main() {
 		inventory(pos[1])
 	case "e1dump":
 		e1dump(pos[1], pos[2], len(pos) > 3)
+	case "e1fn":
+		e1fn(pos[1], pos[2], pos[3])
 	case "e1aborts":
 		e1aborts(pos[1], pos[2])
 	case "e1loops":
@@ -242,7 +244,7 @@ func main() {
 	case "callees":
 		calleeInventory(pos[1])
 	case "selftest":
-		os.Exit(selftest(pos[1:]))
+		os.Exit(selftest(pos))
 	default:
 		usage()
 	}
